@@ -2,6 +2,7 @@ package c19
 
 import (
 	"encoding/xml"
+	"fmt"
 	"math"
 	"math/rand"
 	"net/http"
@@ -24,6 +25,10 @@ type gen struct {
 	// writes maps in map order, which would make the derived document differ
 	// between two runs of one case).
 	oneHeader bool
+	// headerVariants counts header maps generated with case-variant duplicate keys.
+	headerVariants int
+	// outOfRange counts enumeration fields given a value outside their constants.
+	outOfRange int
 }
 
 var strFragments = []string{
@@ -254,23 +259,38 @@ func (g *gen) header() http.Header {
 	}
 	h := http.Header{}
 	names := []string{"Authorization", "Cookie", "Expires", "authorization", "COOKIE", "X-Other", "Content-Type", "x\ny"}
-	used := map[string]bool{}
 	nn := r.Intn(4)
 	if g.oneHeader && nn > 1 {
 		nn = 1
 	}
-	for i, n := 0, nn; i < n; i++ {
+	// Several spellings of one allowed name (only direct map assignment produces
+	// them), each with its own distinguishable values.  Not in document cases:
+	// the encoder writes them in map order.
+	variants := !g.oneHeader && r.Intn(3) == 0
+	n := 0
+	for i := 0; i < nn; i++ {
 		name := names[r.Intn(len(names))]
-		// one spelling per header: two spellings of one name are written in map
-		// order, which no equivalence could (or should) pin down
-		if cn := http.CanonicalHeaderKey(name); used[cn] {
-			continue
-		} else {
-			used[cn] = true
+		spellings := []string{name}
+		if variants {
+			cn := http.CanonicalHeaderKey(name)
+			spellings = []string{cn, strings.ToLower(cn), strings.ToUpper(cn), strings.ToLower(cn[:1]) + strings.ToUpper(cn[1:])}[:2+r.Intn(3)]
 		}
-		for j, m := 0, 1+r.Intn(2); j < m; j++ {
-			h[name] = append(h[name], g.str())
+		for _, sp := range spellings {
+			if _, dup := h[sp]; dup {
+				continue
+			}
+			for j, m := 0, 1+r.Intn(3); j < m; j++ {
+				n++
+				if variants {
+					h[sp] = append(h[sp], fmt.Sprintf("%s-%d", g.word(), n))
+				} else {
+					h[sp] = append(h[sp], g.str())
+				}
+			}
 		}
+	}
+	if variants && len(h) > 0 {
+		g.headerVariants++
 	}
 	return h
 }
